@@ -3818,13 +3818,16 @@ prefix_suffix_match(const char *pattern, const char *name, int ignorecase)
 			return *name == '\0';
 
 		case '*':
-			while (*name != '\0') {
+			/* '*' matches any run of characters, the empty
+			 * one included */
+			for (;;) {
 				if (prefix_suffix_match(pattern, name,
 					ignorecase))
 					return (1);
+				if (*name == '\0')
+					return (0);
 				++name;
 			}
-			return (0);
 		default:
 			if (c != *name) {
 				if (!ignorecase ||
